@@ -34,7 +34,7 @@ def check(ctx, src):
     f = m.func("cmdline_handler")
     ctx.require(f is not None, "cmdline_handler not found")
     table = _option_table(f)
-    ctx.require(len(table) >= 8, "option table not found")
+    ctx.need(len(table) >= 8, "option table not found")
     term = sorted((names, getattr(kw.get("dest"), "value", None)) for names, kw, _ in table if getattr(kw.get("terminate"), "value", None) is True)
     ctx.check(term == [(["-c"], "command"), (["-m"], "mod")], "CMD-TERMINATE", f"{REL}|defs|terminate", f"options with terminate are {term}", REL, table[0][2].lineno,
               witness="hy -c CODE -i: -i is read as a hy option instead of being passed to the program", detail="-c (command), -m (mod)")
@@ -52,7 +52,7 @@ def check(ctx, src):
               "an option's argument must be: the given one, else the rest of the word after the option letter (minus one '='), else the next word", REL, po.lineno,
               witness="hy -Bc CODE ARGS takes an empty command and passes CODE to the program", detail="arg | item[i+1…] | argv.pop(0)")
     loop = next((n for n in f.body if isinstance(n, ast.While) and any(isinstance(c, ast.Call) and dotted(c.func) == "proc_opt" for c in ast.walk(n))), None)
-    ctx.require(loop is not None, "option loop not found")
+    ctx.need(loop is not None, "option loop not found")
     # every proc_opt call in the loop: its result reaches a comparison with 'terminate' that breaks out of the while loop
     calls = [c for c in ast.walk(loop) if isinstance(c, ast.Call) and dotted(c.func) == "proc_opt"]
     breaks = []
@@ -71,7 +71,7 @@ def check(ctx, src):
         long_opt = not any(k.arg == "item" for k in c.keywords)
         ctx.check(via is not None, "CMD-TERMINATE", f"{REL}|loop|{'long option' if long_opt else 'short options'}", "the result of proc_opt is not tested against 'terminate' to leave the option loop", REL, c.lineno,
                   witness="hy -m mod -i: -i is taken by hy", detail=f"break on terminate ({via})")
-    ctx.require(len(calls) >= 2, "proc_opt call sites in the option loop not found")
+    ctx.need(len(calls) >= 2, "proc_opt call sites in the option loop not found")
     inner = next((n for n in ast.walk(loop) if isinstance(n, ast.For) and any(c in list(ast.walk(n)) for c in calls)), None)
     if inner is not None:
         c = next(c for c in calls if c in list(ast.walk(inner)))
@@ -91,7 +91,7 @@ def check(ctx, src):
         if isinstance(n, ast.Assign) and isinstance(n.value, (ast.List, ast.Tuple)) and n.value.elts and isinstance(n.value.elts[0], ast.Constant) and n.value.elts[0].value in ACTIONS \
                 and m.enclosing_func(n) is f:
             sel.append((n.value.elts[0].value, pyq.guard_texts(n, f), n))
-    ctx.require(len(sel) >= 5, "action selection not found")
+    ctx.need(len(sel) >= 5, "action selection not found")
     C, M, D, A, T = "'command' in options", "'mod' in options", "argv and argv[0] == '-'", "argv", "sys.stdin.isatty()"
     nC, nM, nD, nA, nT = "'command' not in options", "'mod' not in options", "not argv or argv[0] != '-'", "not argv", "not sys.stdin.isatty()"
     want = [("eval_string", (C,)), ("run_module", (nC, M)), ("run_script_stdin", (nC, nM, D)), ("run_script_file", (nC, nM, nD, A)), ("just_repl", (nC, nM, nD, nA, T)),
@@ -121,7 +121,7 @@ def check(ctx, src):
                 ok = asg is not None and norm(asg.value) == want_argv[mode] and run is not None and asg.lineno < run.lineno and any(asg is x for x in n.body)
                 ctx.check(ok, "CMD-ARGV", f"{REL}|{mode}|sys.argv", f"in mode {mode} sys.argv must be set to `{want_argv[mode]}` before {runners[mode]} runs (found `{norm(asg.value) if asg else None}`)", REL, n.lineno,
                           witness="the program sees hy's own options in sys.argv", detail=want_argv[mode])
-    ctx.require(len(seen) == 4, f"action dispatch not found for {sorted(set(want_argv) - seen)}")
+    ctx.need(len(seen) == 4, f"action dispatch not found for {sorted(set(want_argv) - seen)}")
     prog = pm.find(f, "program = argv[0]")
     rest = pm.find(f, "argv = list(argv[1:])")
     ctx.check(prog is not None and rest is not None and prog.lineno < rest.lineno < loop.lineno, "CMD-ARGV", f"{REL}|program name", "the program name must be split off before options are processed", REL, f.lineno, detail="program = argv[0]; argv = argv[1:]")
